@@ -72,7 +72,9 @@ class OutFileV(Val):
     if name == '__enter__':
       return self
     if name == '__exit__':
-      return None  # close: data already counted as written
+      # close(): flushes the buffered tail; only now is everything handed to write() on disk
+      ctx.ghost['open:' + self.path.label] = z3.BoolVal(False)
+      return None
     if name == 'write':
       (data,) = args
       if not isinstance(data, BytesV):
@@ -107,6 +109,7 @@ def c_open(ctx, path, mode='r'):
     fstate(ctx, path.label)
     ctx.ghost['exists:' + path.label] = z3.BoolVal(True)
     ctx.ghost['written:' + path.label] = z3.IntVal(0)  # 'wb' truncates
+    ctx.ghost['open:' + path.label] = z3.BoolVal(True)   # buffered: the tail is on disk only after close()
     if path.is_final:
       ctx.tags['totals'].setdefault(path.label, path.total)
     crash_point(ctx, f'open({path.label}, wb)')
@@ -222,6 +225,9 @@ def c_rename(ctx, src, dst):
   g = ctx.ghost
   es, ws = fstate(ctx, src.label)
   ctx.oblige('rename.src.exists', es, kind='definedness', detail='FileNotFoundError in os.rename')
+  ctx.oblige('rename.src.closed', z3.Not(g.get('open:' + src.label, z3.BoolVal(False))), kind='precondition',
+             detail='the temporary file is closed (flushed) before it is renamed to the final name: a crash or an I/O error at '
+                    'flush-on-close after the rename would leave a truncated file under the final name')
   fstate(ctx, dst.label)
   g['exists:' + dst.label] = z3.BoolVal(True)
   g['written:' + dst.label] = ws
